@@ -115,10 +115,22 @@ PStat(a, j, r2gap, rmsegap) ==
   /\ r2gap <= TolAlg /\ rmsegap <= TolAlg
   /\ UNCHANGED pvars
 
-\* y -> c*y + d (c, d in units of 1e-3) for one centred response: predictions map the same way
+\* y -> c*y + d (c in units of 1e-3, clipped away from 0 and saturating; d in 1e-3 of |c| sd(y)) for one centred response:
+\* predictions map the same way
 PAffine(c, d, errTrain, errNew) ==
   /\ phase = "fit" /\ ny = 1 /\ ysc >= 0 /\ c # 0
   /\ errTrain <= TolAlg /\ errNew <= TolAlg
+  /\ UNCHANGED pvars
+
+\* X -> X * s (change of units of the predictors, s = 10^lg): every prediction unchanged, training and unseen objects
+PXScale(lg, errTrain, errNew) ==
+  /\ phase = "fit" /\ lg \in -8..8
+  /\ errTrain <= TolAlg /\ errNew <= TolAlg
+  /\ UNCHANGED pvars
+
+\* the score-based predictor called `calls` times into one and the same output matrix still returns the model's fitted values
+PReuse(calls, err) ==
+  /\ phase = "fit" /\ calls = nlv /\ err <= TolAlg
   /\ UNCHANGED pvars
 
 \* ---------------------------------------------------------------------------------------------- (M) small model
@@ -140,6 +152,7 @@ MNextLS ==
   \/ \E j \in 0..1, r \in RssVals, q \in RssVals, e \in ErrVals, f \in 0..1 : POls(j, q, r, e, f)
   \/ \E a \in 1..2, e \in ErrVals : PBeta(a, e, 0) \/ PBeta(a, 0, e)
   \/ \E e \in ErrVals : PAffine(2000, 0 - 500, e, 0) \/ PAffine(2000, 0 - 500, 0, e)
+  \/ \E e \in ErrVals : PXScale(0 - 6, e, 0) \/ PXScale(4, 0, e) \/ PReuse(nlv, e)
   \/ \E a \in 1..2, j \in 0..1, e \in ErrVals : PStat(a, j, e, 0) \/ PStat(a, j, 0, e)
   \/ \E f \in 0..1 : PEnd(nlv, ny * nlv, f, 0)
 MSpecStruct == PInit /\ [][MNextStruct]_pvars
